@@ -138,7 +138,7 @@ KANI_BENCH = r"""
 #[cfg(kani)]
 mod verif_c05 {
     use super::*;
-    use crate::{config::Action, time::Timer, util::thread::ThreadPool, stats::TimeSample, alloc::ThreadAllocTallyMap};
+    use crate::{config::Action, time::Timer, util::thread::ThreadPool, stats::TimeSample, alloc::{ThreadAllocCount, ThreadAllocCountSigned}};
     use std::num::NonZeroUsize;
 
     fn zeroed_random_state() -> std::hash::RandomState { unsafe { std::mem::zeroed() } }
@@ -223,6 +223,77 @@ mod verif_c05 {
         kani::cover!(true);
     }
 
+    /// Allocation and counter figures are those of the very samples that supplied the time.
+    /// N samples with distinct concrete durations in a symbolic order (so which sample is the
+    /// fastest / slowest / median is symbolic), each with its own distinct allocation tally
+    /// and per-sample counter value; sample size S.
+    fn attribution<const N: usize, const S: u32>() {
+        let sh = shared();
+        let opts = BenchOptions::default();
+        let mut cx = BenchContext::new(&sh, &opts, NonZeroUsize::MIN);
+        cx.samples.sample_size = S;
+        // durations 100, 200, 300, ... in a symbolic rotation
+        let rot: usize = kani::any(); kani::assume(rot < N);
+        let mut dur = [0u128; N];
+        for i in 0..N { dur[i] = 100 * (((i + rot) % N) as u128 + 1); }
+        // sample i: alloc count 10+i, alloc bytes 1000+i, grow count 20+i, max_count 30+i, max_size 4000+i; counter 7000+i
+        cx.counters.set_input_counter::<u32, crate::counter::ItemsCount, _>(|_| crate::counter::ItemsCount::new(0u32));
+        for i in 0..N {
+            cx.samples.time_samples.push(TimeSample { duration: FineDuration { picos: dur[i] } });
+            let mut info = ThreadAllocInfo::new();
+            info.tallies.values[AllocOp::Alloc as usize].count = 10 + i as ThreadAllocCount;
+            info.tallies.values[AllocOp::Alloc as usize].size = 1000 + i as ThreadAllocCount;
+            info.tallies.values[AllocOp::Grow as usize].count = 20 + i as ThreadAllocCount;
+            info.max_count = 30 + i as ThreadAllocCountSigned;
+            info.max_size = 4000 + i as ThreadAllocCountSigned;
+            cx.samples.alloc_info_by_sample.insert(i as u32, info);
+            cx.counters.push_counter(AnyCounter::known(KnownCounterKind::Items, 7000 + i as MaxCountUInt));
+        }
+        let st = cx.compute_stats();
+        // index of the sample holding rank r (0 = fastest)
+        let at = |r: usize| -> usize { (r + N - rot) % N };
+        let (lo, hi) = (at(0), at(N - 1));
+        let (m0, m1) = if N % 2 == 1 { (at(N / 2), at(N / 2)) } else { (at(N / 2 - 1), at(N / 2)) };
+        let s = S as f64;
+        let alloc = st.alloc_tallies.get(AllocOp::Alloc);
+        assert!(alloc.count.fastest == (10 + lo) as f64 / s);
+        assert!(alloc.count.slowest == (10 + hi) as f64 / s);
+        assert!(alloc.size.fastest == (1000 + lo) as f64 / s);
+        assert!(alloc.size.slowest == (1000 + hi) as f64 / s);
+        let grow = st.alloc_tallies.get(AllocOp::Grow);
+        assert!(grow.count.fastest == (20 + lo) as f64 / s && grow.count.slowest == (20 + hi) as f64 / s);
+        // median: the middle sample, or the average of the two middle ones
+        let nmed = if N % 2 == 1 { 1.0 } else { 2.0 };
+        let med = |base: usize| -> f64 { if N % 2 == 1 { (base + m0) as f64 / s } else { ((base + m0) as f64 + (base + m1) as f64) / nmed / s } };
+        assert!(alloc.count.median == med(10));
+        assert!(alloc.size.median == med(1000));
+        assert!(grow.count.median == med(20));
+        assert!(st.max_alloc.count.fastest == (30 + lo) as f64 / s && st.max_alloc.count.slowest == (30 + hi) as f64 / s);
+        assert!(st.max_alloc.size.fastest == (4000 + lo) as f64 / s && st.max_alloc.size.slowest == (4000 + hi) as f64 / s);
+        assert!(st.max_alloc.count.median == med(30));
+        assert!(st.max_alloc.size.median == med(4000));
+        // means over all recorded samples and iterations
+        let iters = (N as u64 * S as u64) as f64;
+        let mut sum_c = 0usize; for i in 0..N { sum_c += 10 + i; }
+        assert!(alloc.count.mean == sum_c as f64 / iters);
+        // untouched classes stay zero
+        let sh_ = st.alloc_tallies.get(AllocOp::Shrink);
+        assert!(sh_.count.fastest == 0.0 && sh_.count.slowest == 0.0 && sh_.count.median == 0.0 && sh_.count.mean == 0.0);
+        // per-sample counter values follow the same samples
+        let c = st.counts[KnownCounterKind::Items as usize].as_ref().unwrap();
+        assert!(c.fastest == 7000 + lo as MaxCountUInt && c.slowest == 7000 + hi as MaxCountUInt);
+        assert!(c.median == ((7000 + m0 as u128 + 7000 + m1 as u128) / 2) as MaxCountUInt);
+        assert!(no_nan(&st));
+        kani::cover!(rot == N - 1);
+    }
+    macro_rules! attr_harness { ($name:ident, $n:expr, $s:expr) => {
+        #[kani::proof] #[kani::unwind(8)] #[kani::solver(kissat)] #[kani::stub(std::hash::RandomState::new, zeroed_random_state)]
+        fn $name() { attribution::<$n, $s>(); }
+    } }
+    attr_harness!(attr_n1_s2, 1, 2);
+    attr_harness!(attr_n2_s2, 2, 2);
+    attr_harness!(attr_n3_s2, 3, 2);
+
     macro_rules! time_harness { ($name:ident, $n:expr, $s:expr) => {
         #[kani::proof] #[kani::unwind(6)] #[kani::solver(kissat)] #[kani::stub(std::hash::RandomState::new, zeroed_random_state)]
         fn $name() { time_stats::<$n, $s>(); }
@@ -247,9 +318,12 @@ def build(S: Sources, tier="quick") -> Unit:
         KaniHarness("verif_c05_util::slice_ptr_index_roundtrip", "complete", covers="util::slice_ptr_index(slice, &slice[i]) == i"),
         KaniHarness("verif_c05_fd::clamp_to", "complete", covers="FineDuration::clamp_to / clamp_to_min"),
     ]
-    for n, s in [(0, 0), (0, 5), (1, 1), (1, 3), (2, 3), (3, 1), (3, 3), (4, 3)]:
+    for n, s, tier in [(0, 0, "quick"), (0, 5, "quick"), (1, 1, "quick"), (1, 3, "quick"), (2, 3, "thorough"), (3, 1, "thorough"), (3, 3, "thorough"), (4, 3, "thorough")]:
         hs.append(KaniHarness(f"verif_c05::time_n{n}_s{s}", "bounded", bound=f"exactly {n} samples, sample_size {s}, symbolic u128 durations",
-                              covers="BenchContext::compute_stats (time statistics, NaN freedom, no panic)"))
+                              covers="BenchContext::compute_stats (time statistics, NaN freedom, no panic)", tier=tier))
+    for n, tier in [(1, "quick"), (2, "thorough"), (3, "thorough")]:
+        hs.append(KaniHarness(f"verif_c05::attr_n{n}_s2", "bounded", bound=f"exactly {n} samples in a symbolic order, concrete distinct tallies, sample_size 2",
+                              covers="BenchContext::compute_stats (allocation / counter figures belong to the samples that supplied the time)", tier=tier))
     return Unit(
         property_id="C05",
         verus=vfiles,
